@@ -1,6 +1,6 @@
 SPECIFICATION Spec
 CONSTANTS
-  Deviations <- AllDevs
+  Deviations <- RealDevs
   MaxNodes = 1
   Worlds <- VecWorld
   Rich = FALSE
